@@ -46,6 +46,12 @@ def plan(ctx):
                     forms += [("cv", c) for c in cs if abs(c) <= 3]
                 else:
                     forms += [("cv", c) for c in cs]
+            # the same literal forms without a type suffix (the literal node then carries no type of its own and is
+            # typed by the other operand): small values, powers of two and the extremes
+            def plain(c, t):
+                return abs(c) <= 8 or (c > 0 and c & (c - 1) == 0 and c <= 256) or c in (t.max, t.min)
+            forms += [("vu",) + f[1:] for f in forms if f[0] == "vc" and plain(f[1], U8 if op in SHIFT else ty)]
+            forms += [("uv",) + f[1:] for f in forms if f[0] == "cv" and plain(f[1], ty)]
             if wide_md and tier == "thorough":
                 forms += [("vq", c) for c in consts] + [("qv", c) for c in consts]
             # chunk
@@ -105,14 +111,14 @@ def work(item, drv):
             extra = None
             if form[0] == "vv":
                 prog = main_prog([("x", ty, False), ("y", rty, False)], Bin(op, x, y))
-            elif form[0] == "vc":
+            elif form[0] in ("vc", "vu"):
                 c = form[1]
-                prog = main_prog([("x", ty, False), ("y", rty, False)], Bin(op, x, Lit(rty, c)))
+                prog = main_prog([("x", ty, False), ("y", rty, False)], Bin(op, x, Lit(rty, c, suffix=form[0] == "vc")))
                 if op == "*":
                     region = (lambda cc: (lambda args: neg_const_mul_region(ty, cc, args[0])))(c)
-            elif form[0] == "cv":
+            elif form[0] in ("cv", "uv"):
                 c = form[1]
-                prog = main_prog([("x", ty, False), ("y", rty, False)], Bin(op, Lit(ty, c), y))
+                prog = main_prog([("x", ty, False), ("y", rty, False)], Bin(op, Lit(ty, c, suffix=form[0] == "cv"), y))
                 if op == "*":
                     region = (lambda cc: (lambda args: neg_const_mul_region(ty, cc, args[1])))(c)
             elif form[0] == "vq":
